@@ -15,12 +15,28 @@ import (
 // runRounds threads Outcome/Reports through rounds on one plugin instance, starting from the
 // initial outcome; returns per-round results and the last retirement report seen.
 func runRounds(hp *hPlugin, rounds []any) (outs []any, rr *llo.RetirementReport, herr any) {
-	o0, _, e := hp.callOutcome(1, llo.Outcome{}, make([]types.AttributedObservation, 2*hp.p.F+1))
-	if e != nil {
-		return nil, nil, e
+	return runRoundsFrom(hp, nil, 1, rounds)
+}
+
+// runRoundsFrom starts from a hand-built outcome (through the outcome codec, as a node would read it) when start is non-nil.
+func runRoundsFrom(hp *hPlugin, start any, seq uint64, rounds []any) (outs []any, rr *llo.RetirementReport, herr any) {
+	var cur llo.Outcome
+	if start != nil {
+		b, err := hp.p.OutcomeCodec.Encode(jOutcome(start))
+		if err != nil {
+			return nil, nil, resErr("encode-start", err)
+		}
+		cur, err = hp.p.OutcomeCodec.Decode(b)
+		if err != nil {
+			return nil, nil, J{"harness-error": err.Error()}
+		}
+	} else {
+		o0, _, e := hp.callOutcome(1, llo.Outcome{}, make([]types.AttributedObservation, 2*hp.p.F+1))
+		if e != nil {
+			return nil, nil, e
+		}
+		cur = o0
 	}
-	cur := o0
-	seq := uint64(1)
 	outs = []any{}
 	for _, r := range rounds {
 		seq++
@@ -75,7 +91,11 @@ func init() {
 		if err != nil {
 			return resErr("factory", err)
 		}
-		outsA, rr, e := runRounds(hpA, jArr(in["roundsA"]))
+		seq0 := uint64(1)
+		if in["startSeqNr"] != nil {
+			seq0 = jU64(in["startSeqNr"])
+		}
+		outsA, rr, e := runRoundsFrom(hpA, in["startA"], seq0, jArr(in["roundsA"]))
 		if e != nil {
 			return e
 		}
@@ -91,7 +111,7 @@ func init() {
 			}
 			hpB.cache.table[string(validToken)] = d
 		}
-		outsB, _, e := runRounds(hpB, jArr(in["roundsB"]))
+		outsB, _, e := runRoundsFrom(hpB, in["startB"], seq0, jArr(in["roundsB"]))
 		if e != nil {
 			return e
 		}
@@ -111,6 +131,7 @@ func genC04(g *G) {
 	for i := 0; i < n; i++ {
 		w := newWorld(g)
 		w.hasPred = false
+		w.exact = i%4 == 3 // a clock that ticks in whole report intervals: windows exactly one interval long
 		cfgA := w.cfgJ()
 		chans := []int{1, 2, 3, 4}
 		defsOf := map[int]J{}
@@ -215,6 +236,14 @@ func monC04(op J, res any) (viol []Violation, nontrivial bool) {
 	retired := false
 	lastEnd := map[uint32]uint64{} // end of the predecessor's last (non-specimen) window per channel
 	dropped := map[uint32]bool{}   // channel left the definitions after it had reported (its window chain restarts)
+	if sa := viewOutcome(op["startA"]); sa != nil && sa.stage == "production" {
+		// a predecessor that starts from a given production outcome: its validity starts are where the windows so far ended
+		for id, va := range sa.va {
+			if _, ok := sa.defs[id]; ok {
+				lastEnd[id] = va
+			}
+		}
+	}
 	for _, o := range jArr(r["A"]) {
 		om := jObj(o)
 		cur := viewOutcome(om["outcome"])
